@@ -57,6 +57,13 @@ func init() {
 			t := a[0].(*sym.Term)
 			return e.tb.Const(64, e.concretize(t, "harness"))
 		},
+		"vSameType": func(e *Exec, fn *ssa.Function, a []Value) Value {
+			x, y := a[0].(Iface), a[1].(Iface)
+			if x.T == nil || y.T == nil {
+				return e.tb.Bool(x.T == nil && y.T == nil)
+			}
+			return e.tb.Bool(types.Identical(x.T, y.T))
+		},
 		"vMapOrderReverse": func(e *Exec, fn *ssa.Function, a []Value) Value {
 			e.mapOrderReverse = a[0].(*sym.Term).IsTrue()
 			return nil
